@@ -645,8 +645,21 @@ class C06(Prop):
                 cb_cases.append({"lines": ["cfg emergency none 1", "colony 2", f"cb reached {mr}", f"cb failed {mf}"] + votes
                                  + ["cb reached none", "cb failed none"] + votes,
                                  "note": "exhaustive callbacks (attributes)"})
+        # every non-voting action spelling and every payload form the stub knows, at least once each (the stub picks
+        # them by position + line index): a lone such voter next to a fixed permit / block pair
+        n_forms = max(len(OTHER_ACTIONS), 21)
+        spell_cases = [{"lines": ["cfg majority none 0"] + ["vote U:1:1:none"] * n_forms
+                        + ["cfg weighted none 1"] + ["vote U:2:1:1 P:1:1:1/2 B:1:1:1/2"] * n_forms,
+                        "note": "exhaustive action spellings"}]
+        for cf in ("none", "bad", "inf", "-inf", "nan", "1", "1/2", "0", "2", "-1/2"):
+            spell_cases.append({"lines": ["cfg confidence none 1"] + [f"vote P:1:1:{cf} P:1/2:1:1/2 B:1:1:1/2"] * 21
+                                + ["cfg bayesian none 1"] + [f"vote B:1:1:{cf} P:1:1:1"] * 7,
+                                "note": "exhaustive payload forms"})
         return [{"name": "callbacks: none / well-behaved / raising on each side x constructor argument or attribute x "
                          "PERMIT / BLOCK / gated vote", "cases": cb_cases},
+                {"name": f"every non-voting action spelling ({len(OTHER_ACTIONS)}) and every payload form of the stub "
+                         "(absent / non-numeric / numeric as float, string, padded string, int, bool / inf / -inf / nan / "
+                         "out of range)", "cases": [c for c in spell_cases if not self._risky(c["lines"])]},
                 {"name": f"all multisets of <= {kmax} voters over a {len(alpha)}-voter alphabet x {len(cfgs)} configurations",
                  "cases": kept},
                 {"name": "three-member colonies with every pattern of equal agent names x all ballots over P B U X x 4 strategies",
